@@ -22,6 +22,13 @@
 (*   Decline(c)    f returns (nil, _, nil): no write, the call returns nil *)
 (*   Err(c, rf)    f returns an error: rf = FALSE the call fails, rf =     *)
 (*                 TRUE the attempt is consumed and the cell re-read       *)
+(*   Same(c, rf)   f returns its input unchanged (not nil).  Consul and    *)
+(*                 etcd write it (the index moves, the value does not);    *)
+(*                 memberlist's merge finds no change (errNoChangeDetected)*)
+(*                 and, if rf and attempts are left, sleeps 1 s before the *)
+(*                 next attempt: the caller is parked in "sleep" until     *)
+(*   Tick          1 s passes: every sleeper re-reads and enters f again   *)
+(*                 (all sleepers share the deadline: time only moves here) *)
 (* A failed comparison and the re-read that follows it have no gate in     *)
 (* between in any backend and a failed comparison stays failed (ver only   *)
 (* grows while nobody deletes), so fusing them loses no reachable cell     *)
@@ -39,6 +46,8 @@ CONSTANTS NC,          \* callers 1..NC
           Secondaries, \* subset of {"none", "consul", "memberlist"}: "none" = no MultiClient, otherwise
                        \* a MultiClient mirrors every successful CAS into a second store of that kind
           WithDelete,  \* TRUE: a Delete action exists (outside C07: documentation configs)
+          WithSame,    \* TRUE: f may also return its input unchanged (Same / Tick)
+          NW,          \* watchers 1..NW (WatchKey / WatchPrefix on the key)
           Emit         \* TRUE: print one behaviour per transition (gen/replay binding)
 
 ASSUME Backends \subseteq {"consul", "etcd", "memberlist"} /\ Secondaries \subseteq {"none", "consul", "memberlist"}
@@ -54,15 +63,26 @@ VARIABLES Backend,  \* the store under test, chosen in Init and never changed (o
           applied,  \* history: the successful writes in the order they hit the store
           res,      \* history: res[c][k] = "" | "ok" | "noop" (declined or failed)
           mirror,   \* value in the secondary store of a mirroring MultiClient
+          wt,       \* wt[w] = [on, from, last]: watcher w registered when `from` writes had hit the store and
+                    \* was last called with the value left by write number `last` (of `applied`)
           hist      \* behaviour so far (not in the VIEW)
 
-vars == <<Backend, Secondary, cell, ctr, cl, applied, res, mirror, hist>>
-view == <<Backend, Secondary, cell, ctr, cl, applied, res, mirror>>
+vars == <<Backend, Secondary, cell, ctr, cl, applied, res, mirror, wt, hist>>
+view == <<Backend, Secondary, cell, ctr, cl, applied, res, mirror, wt>>
+Watchers == 1..NW
 
 Tags(v)        == {<<t[1], t[2]>> : t \in v}
 AppendTag(v, c, k) == v \cup {<<c, k, Cardinality(v) + 1>>}
 
 IdleRec(k) == [pc |-> "idle", op |-> k, att |-> 0, errs |-> 0, sval |-> Nil, sver |-> 0]
+
+(* value of the cell after the first n successful calls were executed one at a time; a blind   *)
+(* memberlist write (made by a call that had read "absent") is a merge of its output           *)
+RECURSIVE After(_)
+After(n) == IF n = 0 THEN Nil
+            ELSE LET a == applied[n] IN
+                 IF a.same THEN After(n - 1)
+                 ELSE IF a.blind THEN After(n - 1) \cup a.out ELSE AppendTag(After(n - 1), a.c, a.k)
 
 (* the MultiClient can be built (kv.NewClient, store "multi") from the in-memory Consul store *)
 (* and a memberlist KV, in either order                                                        *)
@@ -74,6 +94,7 @@ Init == /\ Backend \in Backends
         /\ applied = <<>>
         /\ res = [c \in Clients |-> [k \in 1..OpsPer |-> ""]]
         /\ mirror = Nil
+        /\ wt = [w \in Watchers |-> [on |-> FALSE, from |-> 0, last |-> 0]]
         /\ hist = <<[a |-> "setup", be |-> Backend, sec |-> Secondary, limit |-> Limit]>>
 
 (* What a read leaves in the caller's local index/revision/version variable.  Consul and etcd   *)
@@ -109,12 +130,12 @@ Begin(c) ==
     /\ cl[c].pc = "idle" /\ cl[c].op < OpsPer
     /\ cl' = [cl EXCEPT ![c] = [pc |-> "inf", op |-> @.op + 1, att |-> 1, errs |-> 0,
                                 sval |-> cell.val, sver |-> ReadVer(0)]]
-    /\ UNCHANGED <<Backend, Secondary, cell, ctr, applied, res, mirror>>
+    /\ UNCHANGED <<Backend, Secondary, cell, ctr, applied, res, mirror, wt>>
     /\ Step("begin", c, FALSE, "fin", cell.val)
 
 (* the attempt did not write: next attempt (re-read, f entered again) or the call fails *)
 NoWrite(a, c, rf, retry, errs) ==
-    /\ UNCHANGED <<Backend, Secondary, cell, ctr, applied, mirror>>
+    /\ UNCHANGED <<Backend, Secondary, cell, ctr, applied, mirror, wt>>
     /\ IF retry /\ cl[c].att < Limit
        THEN /\ cl' = [cl EXCEPT ![c] = [@ EXCEPT !.att = @ + 1, !.errs = errs, !.sval = cell.val,
                                                  !.sver = ReadVer(cl[c].sver)]]
@@ -132,11 +153,11 @@ Put(c, rf) ==
           THEN /\ cell' = [val |-> Written(out), ver |-> NextVer]
                /\ ctr' = ctr + 1
                /\ applied' = Append(applied, [c |-> c, k |-> k, seen |-> cl[c].sval, out |-> out, blind |-> Blind(c),
-                                                    prev |-> cell.val])
+                                                    prev |-> cell.val, same |-> FALSE])
                /\ res' = [res EXCEPT ![c][k] = "ok"]
                /\ mirror' = Mirrored(out)
                /\ cl' = [cl EXCEPT ![c] = IdleRec(k)]
-               /\ UNCHANGED <<Backend, Secondary>>
+               /\ UNCHANGED <<Backend, Secondary, wt>>
                /\ Step("put", c, rf, "ok", Nil)
           ELSE \* consul, etcd: always another attempt; memberlist: only if f said retry
                NoWrite("put", c, rf, Backend # "memberlist" \/ rf, cl[c].errs)
@@ -145,7 +166,7 @@ Decline(c) ==
     /\ cl[c].pc = "inf"
     /\ cl' = [cl EXCEPT ![c] = IdleRec(@.op)]
     /\ res' = [res EXCEPT ![c][cl[c].op] = "noop"]
-    /\ UNCHANGED <<Backend, Secondary, cell, ctr, applied, mirror>>
+    /\ UNCHANGED <<Backend, Secondary, cell, ctr, applied, mirror, wt>>
     /\ Step("decline", c, FALSE, "ok", Nil)
 
 Err(c, rf) ==
@@ -153,18 +174,80 @@ Err(c, rf) ==
     /\ rf => cl[c].errs < MaxErr
     /\ NoWrite("err", c, rf, rf, IF rf THEN cl[c].errs + 1 ELSE cl[c].errs)
 
+(* f returns the value it was handed.  memberlist: trySingleCas checks the version first      *)
+(* (errVersionMismatch, retried only if f said so), then the merge reports no change           *)
+(* (errNoChangeDetected): `continue` if f said retry - the loop sleeps noChangeDetectedRetrySleep *)
+(* = 1 s at the top of the next attempt, none if this was the last attempt - else the call fails. *)
+Same(c, rf) ==
+    /\ WithSame /\ cl[c].pc = "inf" /\ cl[c].sval # Nil
+    /\ LET k == cl[c].op
+           out == cl[c].sval
+       IN IF Backend # "memberlist"
+          THEN IF CanWrite(c)
+               THEN /\ cell' = [val |-> out, ver |-> NextVer]
+                    /\ ctr' = ctr + 1
+                    /\ applied' = Append(applied, [c |-> c, k |-> k, seen |-> out, out |-> out, blind |-> FALSE,
+                                                    prev |-> cell.val, same |-> TRUE])
+                    /\ res' = [res EXCEPT ![c][k] = "ok"]
+                    /\ mirror' = Mirrored(out)
+                    /\ cl' = [cl EXCEPT ![c] = IdleRec(k)]
+                    /\ UNCHANGED <<Backend, Secondary, wt>>
+                    /\ Step("same", c, rf, "ok", Nil)
+               ELSE NoWrite("same", c, rf, TRUE, cl[c].errs)
+          ELSE IF ~CanWrite(c)
+               THEN NoWrite("same", c, rf, rf, cl[c].errs)
+               ELSE IF rf /\ cl[c].att < Limit
+                    THEN /\ cl[c].errs < MaxErr
+                         /\ cl' = [cl EXCEPT ![c] = [@ EXCEPT !.pc = "sleep", !.errs = @ + 1]]
+                         /\ UNCHANGED <<Backend, Secondary, cell, ctr, applied, res, mirror, wt>>
+                         /\ Step("same", c, rf, "sleep", Nil)
+                    ELSE NoWrite("same", c, rf, FALSE, cl[c].errs)
+
+Sleepers == {c \in Clients : cl[c].pc = "sleep"}
+
+Tick ==
+    /\ Sleepers # {}
+    /\ cl' = [c \in Clients |-> IF c \in Sleepers
+                                THEN [cl[c] EXCEPT !.pc = "inf", !.att = @ + 1, !.sval = cell.val, !.sver = ReadVer(cl[c].sver)]
+                                ELSE cl[c]]
+    /\ UNCHANGED <<Backend, Secondary, cell, ctr, applied, res, mirror, wt>>
+    /\ LET r == [a |-> "tick", c |-> 0, rf |-> FALSE, e |-> "fin", in |-> cell.val, val |-> cell.val, mir |-> mirror,
+                 w |-> Sleepers]
+       IN hist' = IF Emit THEN Append(hist, r) ELSE <<r>>
+
+(* Watchers (WatchKey / WatchPrefix on the key).  A watcher is called with values the store   *)
+(* held, in the order they were stored, possibly skipping some (Consul: long poll on the       *)
+(* index; memberlist: notifications coalesce) - the etcd mock forwards every put.  Consul's    *)
+(* watch starts with index 0 and therefore reports the value present at registration; the      *)
+(* other two report only later writes.                                                         *)
+Watch(w) ==
+    /\ ~wt[w].on
+    /\ wt' = [wt EXCEPT ![w] = [on |-> TRUE, from |-> Len(applied),
+                                last |-> IF Backend = "consul" /\ Len(applied) > 0 THEN Len(applied) - 1 ELSE Len(applied)]]
+    /\ UNCHANGED <<Backend, Secondary, cell, ctr, cl, applied, res, mirror>>
+    /\ Step("watch", w, FALSE, "", cell.val)
+
+Deliver(w, i) ==
+    /\ wt[w].on /\ i \in (wt[w].last + 1)..Len(applied)
+    /\ Backend = "etcd" => i = wt[w].last + 1
+    /\ wt' = [wt EXCEPT ![w].last = i]
+    /\ UNCHANGED <<Backend, Secondary, cell, ctr, cl, applied, res, mirror>>
+    /\ Step("deliver", w, FALSE, "", After(i))
+
 (* Outside C07: kv.Client.Delete by somebody else.  etcd mock: the entry is dropped, the next  *)
 (* put restarts Version at 1 (ABA).  Consul mock: the entry is dropped, ModifyIndex keeps       *)
 (* growing, but an absent key accepts a write with any index.                                   *)
 Delete ==
     /\ WithDelete /\ cell.ver # 0 /\ Backend # "memberlist"
     /\ cell' = [val |-> Nil, ver |-> 0]
-    /\ UNCHANGED <<Backend, Secondary, ctr, cl, applied, res, mirror>>
+    /\ UNCHANGED <<Backend, Secondary, ctr, cl, applied, res, mirror, wt>>
     /\ Step("delete", 0, FALSE, "", Nil)
 
 Next == \/ \E c \in Clients : \/ Begin(c)
-                              \/ \E rf \in BOOLEAN : Put(c, rf) \/ Err(c, rf)
+                              \/ \E rf \in BOOLEAN : Put(c, rf) \/ Err(c, rf) \/ Same(c, rf)
                               \/ Decline(c)
+        \/ Tick
+        \/ \E w \in Watchers : Watch(w) \/ \E i \in 1..Len(applied) : Deliver(w, i)
         \/ Delete
 
 Spec == Init /\ [][Next]_vars
@@ -174,17 +257,10 @@ Spec == Init /\ [][Next]_vars
 
 TypeOK == /\ cell.ver \in Nat
           /\ WithDelete \/ (cell.ver = 0 <=> cell.val = Nil)
-          /\ \A c \in Clients : /\ cl[c].pc \in {"idle", "inf"}
+          /\ \A c \in Clients : /\ cl[c].pc \in {"idle", "inf", "sleep"}
                                 /\ cl[c].op \in 0..OpsPer
                                 /\ cl[c].att \in 0..Limit
           /\ \A i \in 1..Len(applied) : applied[i].blind => Backend = "memberlist"
-
-(* value of the cell after the first n successful calls were executed one at a time; a blind   *)
-(* memberlist write (made by a call that had read "absent") is a merge of its output           *)
-RECURSIVE After(_)
-After(n) == IF n = 0 THEN Nil
-            ELSE LET a == applied[n] IN
-                 IF a.blind THEN After(n - 1) \cup a.out ELSE AppendTag(After(n - 1), a.c, a.k)
 
 (* the final value reflects exactly the successful calls *)
 Serial == cell.val = After(Len(applied))
@@ -194,17 +270,19 @@ Serial == cell.val = After(Len(applied))
 SeenChain == \A i \in 1..Len(applied) :
                 /\ applied[i].blind \/ applied[i].seen = After(i - 1)
                 /\ applied[i].blind => applied[i].seen = Nil
-                /\ applied[i].out = AppendTag(applied[i].seen, applied[i].c, applied[i].k)
+                /\ applied[i].out = IF applied[i].same THEN applied[i].seen
+                                    ELSE AppendTag(applied[i].seen, applied[i].c, applied[i].k)
 
 (* no successful update is overwritten unseen / nothing appears that no successful call wrote *)
-AppliedTags == {<<applied[i].c, applied[i].k>> : i \in 1..Len(applied)}
+AppliedCalls == {<<applied[i].c, applied[i].k>> : i \in 1..Len(applied)}
+AppliedTags  == {<<applied[i].c, applied[i].k>> : i \in {j \in 1..Len(applied) : ~applied[j].same}}
 NoLostNoPhantom == Tags(cell.val) = AppliedTags
 MirrorSound == Tags(mirror) \subseteq AppliedTags
 
 (* a call is applied at most once, and exactly the calls that reported success are applied *)
 AtMostOncePerCall ==
     /\ \A i, j \in 1..Len(applied) : i # j => <<applied[i].c, applied[i].k>> # <<applied[j].c, applied[j].k>>
-    /\ \A c \in Clients, k \in 1..OpsPer : (res[c][k] = "ok") <=> (<<c, k>> \in AppliedTags)
+    /\ \A c \in Clients, k \in 1..OpsPer : (res[c][k] = "ok") <=> (<<c, k>> \in AppliedCalls)
     /\ \A c \in Clients, k \in 1..OpsPer : res[c][k] # "" <=> (k < cl[c].op \/ (k = cl[c].op /\ cl[c].pc = "idle"))
 
 (* a call that reports failure, or whose function declines, leaves the stored value unchanged; *)
@@ -215,6 +293,14 @@ FailureIsNoop ==
                               /\ LET a == applied'[Len(applied')] IN res[a.c][a.k] = "" /\ res'[a.c][a.k] = "ok"
                            \/ WithDelete /\ cell'.ver = 0 /\ res' = res
       ]_view
+
+(* Watchers: a watcher is only ever called with values the store held (by construction of      *)
+(* Deliver: After(i)), never goes back, and - liveness, under weak fairness of its deliveries - *)
+(* has been called with the latest value once the writers are done.                             *)
+WatchSound == \A w \in Watchers : wt[w].on => wt[w].last <= Len(applied) /\ wt[w].last + 1 >= wt[w].from
+CaughtUp   == \A w \in Watchers : wt[w].on => wt[w].last = Len(applied)
+FairSpec   == Spec /\ \A w \in Watchers : WF_vars(\E i \in 1..(NC * OpsPer) : Deliver(w, i))
+EventuallyLatest == <>[](CaughtUp)
 
 (* gen/replay: every transition of the (VIEW-)state graph yields the path to its source + itself *)
 EmitHist == Emit => PrintT(ToJson(hist'))
